@@ -77,8 +77,9 @@ func chainNext(sat []SecID, sector SecID) (SecID, error) {
 
 // Mark a chain of sectors as free
 func freeSectors(sat []SecID, sector SecID) {
-	// an empty chain starts with a negative (end-of-chain) marker
-	for sector >= 0 {
+	// an empty chain starts with a negative (end-of-chain) marker, and a
+	// malformed one can point outside of the table
+	for sector >= 0 && int(sector) < len(sat) {
 		nextSector := sat[sector]
 		sat[sector] = SecIDFree
 		sector = nextSector
@@ -164,6 +165,9 @@ func (r *ComDoc) writeSAT() error {
 	buf := bytes.NewBuffer(r.sectorBuf)
 	for i, sector := range r.MSAT {
 		j := i * satPerSector
+		if sector < 0 || j+satPerSector > len(r.SAT) {
+			return errors.New("MSAT does not match the sector allocation table")
+		}
 		buf.Reset()
 		_ = binary.Write(buf, binary.LittleEndian, r.SAT[j:j+satPerSector])
 		if err := r.writeSector(sector, buf.Bytes()); err != nil {
